@@ -1,7 +1,7 @@
 (* C16 - source positions match the barrier cut; every split has exactly one reader. Statements only. *)
 From Coq Require Import List NArith.
 From RV Require Import Model.RunnerLoop Model.SplitTracker Model.Splitters
-                       Proofs.C16_Runner Proofs.C16_Static Proofs.C16_Kinesis Proofs.C16_Assign Proofs.C16_Http Model.HttpReader.
+                       Proofs.C16_Runner Proofs.C16_Static Proofs.C16_Kinesis Proofs.C16_Assign Proofs.C16_Http Model.HttpReader Proofs.C16_KinReader Model.KinReader.
 From Coq Require Import Permutation.
 Import ListNotations.
 Open Scope N_scope.
@@ -27,6 +27,27 @@ Theorem positions_match_cut_httpapi_reader : forall n b k c0, c0 <= n ->
   evs = h_range c0 (length evs) /\ h_checkpoint r = c0 + N.of_nat (length evs) /\ h_checkpoint r <= n.
 Proof. exact http_cursor_matches_emitted. Qed.
 Print Assumptions positions_match_cut_httpapi_reader.
+
+(* the real kinesis reader: one ReadEvents call emits the next consecutive records of exactly one held shard and
+   moves that shard's position behind them, or reports it finished (closed and fully emitted) and drops it; every
+   other held shard keeps its position; Checkpoint() lists every held shard with its position *)
+Theorem positions_match_cut_kinesis_reader : forall limit avail closed r r' recs fin,
+  kr_read limit avail closed r = (r', recs, fin) ->
+  (kr_shards r = [] /\ r' = r /\ recs = [] /\ fin = []) \/
+  (kr_shards r <> [] /\ nth_error (kr_shards r) (kr_idx r) = None /\ r' = r /\ recs = [] /\ fin = []) \/
+  exists s p e, nth_error (kr_shards r) (kr_idx r) = Some (s, p) /\ p <= e /\
+    recs = map (fun i => (s, i)) (h_range p (N.to_nat (e - p))) /\ (e <= N.max p (lookupN avail s)) /\
+    ((fin = [] /\ forall x, In x (kr_shards r') <-> x = (s, e) \/ exists j, j <> kr_idx r /\ nth_error (kr_shards r) j = Some x) \/
+     (fin = [s] /\ memN s closed = true /\ lookupN avail s <= e /\
+      forall x, In x (kr_shards r') <-> exists j, j <> kr_idx r /\ nth_error (kr_shards r) j = Some x)).
+Proof. exact kinesis_read_step. Qed.
+Print Assumptions positions_match_cut_kinesis_reader.
+
+Theorem restore_resumes_positions_kinesis_reader : forall r,
+  (forall x, In x (kr_shards r) <-> In x (kr_checkpoint r)) /\
+  kr_shards (kr_assign (kr_checkpoint r) kr_new) = kr_checkpoint r.
+Proof. intro r. split; [apply kinesis_checkpoint_complete | apply kinesis_restore_resumes]. Qed.
+Print Assumptions restore_resumes_positions_kinesis_reader.
 
 (* ---- restore_resumes_positions ---- *)
 
